@@ -293,6 +293,7 @@ FEATURES = [
     "let x=K; { let x=J; out(x); { let x=S; out(x); } } out(x);",
     "function f(){ try { return inner() } catch(e) { return e.name } function inner(){ return tdz } let tdz=K; } out(f());",
     "const o={ n:K, m(){ return [1,2].map(v=>v*this.n) }, g: function(){ return this && this.n } }; out(o.m(), o.g(), (0,o.g)===o.g);",
+    "const o={ n:K, m(){ return this===undefined?'undef':this.n } }; out((o.m)(), ((o.m))(), (((o.m)))(), ((o['m']))(), ((o?.m))(), (0,o.m)===o.m);",
     "function outer(){ const args=[...arguments]; const arrow=()=>arguments.length; return [args, arrow()] } out(outer(K,J,S));",
     "function fact(n){ return n<=1?1:n*fact(n-1) } out(fact(K+5)); const fib=n=>n<2?n:fib(n-1)+fib(n-2); out(fib(K+10));",
     "function dflt(a, b=a+K, c=()=>a+b){ a=J; return [a,b,c()] } out(dflt(1), dflt(1,2), dflt(undefined, undefined));",
